@@ -125,6 +125,18 @@ def class_axioms():
         ax.append(z3.ForAll([c], z3.Implies(z3.And(c >= 0, c < n),
                                             sub(c, did) == z3.Or([c == k for k in desc])),
                             patterns=[sub(c, did)]))
+    # A-CLASSES: no class inherits from two unrelated classes among the built-in containers and the classes the sidecar
+    # declares (true of the repository's classes under contract; e.g. nothing is both a Spec and a dict)
+    containers = ["list", "dict", "set", "tuple", "deque", "re.Pattern", "re.Match"]
+    declared = [x for x in names if x not in BUILTIN]
+    pairs = set()
+    for a in containers + declared:
+        for b in containers:
+            if a != b and not CL.is_sub(a, b) and not CL.is_sub(b, a):
+                pairs.add(tuple(sorted((a, b))))
+    for a, b in sorted(pairs):
+        ia, ib = CL.ids[a], CL.ids[b]
+        ax.append(z3.ForAll([c], z3.Not(z3.And(sub(c, ia), sub(c, ib))), patterns=[z3.MultiPattern(sub(c, ia), sub(c, ib))]))
     ax.append(z3.ForAll([c], sub(c, c), patterns=[sub(c, c)]))
     ax.append(z3.ForAll([c], sub(c, CL.ids["object"]), patterns=[sub(c, CL.ids["object"])]))
     return ax
